@@ -2,7 +2,19 @@
 // and one event loop.  A case is a JSON script; everything observable is written to a journal (JSON array) returned to the driver.
 #include "common.h"
 
+#include "QXmppArchiveManager.h"
+#include "QXmppAttentionManager.h"
 #include "QXmppBlockingManager.h"
+#include "QXmppBookmarkManager.h"
+#include "QXmppCallInviteManager.h"
+#include "QXmppJingleMessageInitiationManager.h"
+#include "QXmppMovedManager.h"
+#include "QXmppMucManager.h"
+#include "QXmppRegistrationManager.h"
+#include "QXmppRpcManager.h"
+#include "QXmppUploadRequestManager.h"
+#include "QXmppUserLocationManager.h"
+#include "QXmppUserTuneManager.h"
 #include "QXmppCarbonManager.h"
 #include "QXmppCarbonManagerV2.h"
 #include "QXmppClient.h"
@@ -30,6 +42,26 @@
 #include "QXmppVersionManager.h"
 
 #include <QBuffer>
+#include <QMimeDatabase>
+#include "QXmppPubSubBaseItem.h"
+#include "QXmppPubSubSubscribeOptions.h"
+#include "QXmppPubSubNodeConfig.h"
+#include "QXmppPubSubAffiliation.h"
+#include "QXmppPubSubSubscription.h"
+#include "QXmppPubSubMetadata.h"
+#include "QXmppDataForm.h"
+#include "QXmppResultSet.h"
+#include "QXmppMixInvitation.h"
+#include "QXmppVCardIq.h"
+#include "QXmppHttpUploadIq.h"
+#include "QXmppEntityTimeIq.h"
+#include "QXmppExternalService.h"
+#include "QXmppMixInfoItem.h"
+#include "QXmppMixConfigItem.h"
+#include "QXmppMixParticipantItem.h"
+#include "QXmppGeolocItem.h"
+#include "QXmppUserTuneItem.h"
+#include "QXmppVCardIq.h"
 #include <QCoreApplication>
 #include <QElapsedTimer>
 #include <QFile>
@@ -464,9 +496,33 @@ struct Case {
             else if (m == u"blocking") cl->addNewExtension<QXmppBlockingManager>();
             else if (m == u"upload") cl->addNewExtension<QXmppHttpUploadManager>();
             else if (m == u"extdisco") cl->addNewExtension<QXmppExternalServiceDiscoveryManager>();
-            else if (m == u"mix") cl->addNewExtension<QXmppMixManager>();
+            else if (m == u"mix") {
+                // an application reads what the manager hands it
+                auto *mm = cl->addNewExtension<QXmppMixManager>();
+                QObject::connect(mm, &QXmppMixManager::channelConfigurationUpdated, &c.ctx, [=](const QString &jid, const QXmppMixConfigItem &item) {
+                    sig("mix.channelConfigurationUpdated", { { "jid", jid }, { "lastEditor", item.lastEditorJid() }, { "owners", item.ownerJids().join(u',') } });
+                });
+                QObject::connect(mm, &QXmppMixManager::channelInformationUpdated, &c.ctx, [=](const QString &jid, const QXmppMixInfoItem &item) {
+                    sig("mix.channelInformationUpdated", { { "jid", jid }, { "name", item.name() }, { "contacts", item.contactJids().join(u',') } });
+                });
+                QObject::connect(mm, &QXmppMixManager::participantReceived, &c.ctx, [=](const QString &jid, const QXmppMixParticipantItem &item) {
+                    sig("mix.participantReceived", { { "jid", jid }, { "nick", item.nick() }, { "pjid", item.jid() } });
+                });
+            }
             else if (m == u"receipts") cl->addNewExtension<QXmppMessageReceiptManager>();
             else if (m == u"time") cl->addNewExtension<QXmppEntityTimeManager>();
+            else if (m == u"muc") cl->addNewExtension<QXmppMucManager>();
+            else if (m == u"bookmarks") cl->addNewExtension<QXmppBookmarkManager>();
+            else if (m == u"attention") cl->addNewExtension<QXmppAttentionManager>();
+            else if (m == u"jmi") cl->addNewExtension<QXmppJingleMessageInitiationManager>();
+            else if (m == u"callinvite") cl->addNewExtension<QXmppCallInviteManager>();
+            else if (m == u"rpc") cl->addNewExtension<QXmppRpcManager>();
+            else if (m == u"registration") cl->addNewExtension<QXmppRegistrationManager>();
+            else if (m == u"archive") cl->addNewExtension<QXmppArchiveManager>();
+            else if (m == u"location") cl->addNewExtension<QXmppUserLocationManager>();
+            else if (m == u"tune") cl->addNewExtension<QXmppUserTuneManager>();
+            else if (m == u"moved") cl->addNewExtension<QXmppMovedManager>();
+            else if (m == u"uploadrequest") cl->addNewExtension<QXmppUploadRequestManager>();
             else if (m == u"roster") cl->addNewExtension<QXmppRosterManager>(cl);
             else if (m == u"vcard") cl->addNewExtension<QXmppVCardManager>();
             else if (m == u"version") cl->addNewExtension<QXmppVersionManager>();
@@ -836,6 +892,84 @@ struct Case {
                 }
             });
             return true;
+        }
+        if (op == u"mgr") {  // a request through a manager's task-returning API; the completion is journaled with its count
+            auto &c = cli(st);
+            Cli *cp = &c;
+            const QString rid = st["rid"].toString();
+            const QString kind = st["kind"].toString();
+            const QString to = st["to"].toString(u"pubsub.example.org"_s);
+            const QString node = st["node"].toString(u"urn:example:node"_s);
+            J({ { "ev", "mgr_call" }, { "c", c.index }, { "rid", rid }, { "kind", kind }, { "to", to } });
+            auto attach = [=, this](auto task) {
+                auto counter = std::make_shared<int>(0);
+                task.then(&cp->ctx, [=, this](auto &&r) {
+                    ++*counter;
+                    QJsonObject o { { "ev", "mgr_done" }, { "c", cp->index }, { "rid", rid }, { "kind", kind }, { "count", *counter } };
+                    using R = std::decay_t<decltype(r)>;
+                    if constexpr (requires { std::holds_alternative<QXmppError>(r); }) {
+                        o["outcome"] = std::holds_alternative<QXmppError>(r) ? u"error"_s : u"value"_s;
+                        if (auto *e = std::get_if<QXmppError>(&r)) o["text"] = errText(*e);
+                    } else {
+                        o["outcome"] = u"value"_s;
+                    }
+                    (void)sizeof(R);
+                    J(o);
+                });
+            };
+            QXmppClient *cl = &*c.client;
+            bool known = true;
+            if (kind == u"discoInfo") attach(cl->findExtension<QXmppDiscoveryManager>()->requestDiscoInfo(to, st["qnode"].toString()));
+            else if (kind == u"discoItems") attach(cl->findExtension<QXmppDiscoveryManager>()->requestDiscoItems(to, st["qnode"].toString()));
+            else if (kind == u"fetchVCard") attach(cl->findExtension<QXmppVCardManager>()->fetchVCard(to));
+            else if (kind == u"setVCard") {
+                QXmppVCardIq v;
+                v.setFullName(u"Alice"_s);
+                attach(cl->findExtension<QXmppVCardManager>()->setVCard(v));
+            } else if (kind == u"entityTime") attach(cl->findExtension<QXmppEntityTimeManager>()->requestEntityTime(to));
+            else if (kind == u"mamRetrieve") attach(cl->findExtension<QXmppMamManager>()->retrieveMessages(st.contains("to") ? to : QString()));
+            else if (kind == u"blocklist") attach(cl->findExtension<QXmppBlockingManager>()->fetchBlocklist());
+            else if (kind == u"block") attach(cl->findExtension<QXmppBlockingManager>()->block(u"spam@evil.example"_s));
+            else if (kind == u"unblock") attach(cl->findExtension<QXmppBlockingManager>()->unblock(u"spam@evil.example"_s));
+            else if (kind == u"extServices") attach(cl->findExtension<QXmppExternalServiceDiscoveryManager>()->requestServices(to));
+            else if (kind == u"rosterAdd") attach(cl->findExtension<QXmppRosterManager>()->addRosterItem(u"carol@example.org"_s, u"Carol"_s));
+            else if (kind == u"rosterRemove") attach(cl->findExtension<QXmppRosterManager>()->removeRosterItem(u"carol@example.org"_s));
+            else if (kind == u"rosterRename") attach(cl->findExtension<QXmppRosterManager>()->renameRosterItem(u"carol@example.org"_s, u"C."_s));
+            else if (kind == u"psNodes") attach(cl->findExtension<QXmppPubSubManager>()->requestNodes(to));
+            else if (kind == u"psCreate") attach(cl->findExtension<QXmppPubSubManager>()->createNode(to, node));
+            else if (kind == u"psCreateInstant") attach(cl->findExtension<QXmppPubSubManager>()->createInstantNode(to));
+            else if (kind == u"psDelete") attach(cl->findExtension<QXmppPubSubManager>()->deleteNode(to, node));
+            else if (kind == u"psItemIds") attach(cl->findExtension<QXmppPubSubManager>()->requestItemIds(to, node));
+            else if (kind == u"psItems") attach(cl->findExtension<QXmppPubSubManager>()->requestItems<QXmppPubSubBaseItem>(to, node));
+            else if (kind == u"psItem") attach(cl->findExtension<QXmppPubSubManager>()->requestItem<QXmppPubSubBaseItem>(to, node, u"item-1"_s));
+            else if (kind == u"psPublish") attach(cl->findExtension<QXmppPubSubManager>()->publishItem(to, node, QXmppPubSubBaseItem(u"item-1"_s)));
+            else if (kind == u"psRetract") attach(cl->findExtension<QXmppPubSubManager>()->retractItem(to, node, u"item-1"_s));
+            else if (kind == u"psPurge") attach(cl->findExtension<QXmppPubSubManager>()->purgeItems(to, node));
+            else if (kind == u"psSubscriptions") attach(cl->findExtension<QXmppPubSubManager>()->requestSubscriptions(to));
+            else if (kind == u"psAffiliations") attach(cl->findExtension<QXmppPubSubManager>()->requestAffiliations(to));
+            else if (kind == u"psNodeAffiliations") attach(cl->findExtension<QXmppPubSubManager>()->requestNodeAffiliations(to, node));
+            else if (kind == u"psOptions") attach(cl->findExtension<QXmppPubSubManager>()->requestSubscribeOptions(to, node));
+            else if (kind == u"psNodeConfig") attach(cl->findExtension<QXmppPubSubManager>()->requestNodeConfiguration(to, node));
+            else if (kind == u"psSubscribe") attach(cl->findExtension<QXmppPubSubManager>()->subscribeToNode(to, node, u"alice@example.org"_s));
+            else if (kind == u"psUnsubscribe") attach(cl->findExtension<QXmppPubSubManager>()->unsubscribeFromNode(to, node, u"alice@example.org"_s));
+            else if (kind == u"mixChannelJids") attach(cl->findExtension<QXmppMixManager>()->requestChannelJids(to));
+            else if (kind == u"mixChannelNodes") attach(cl->findExtension<QXmppMixManager>()->requestChannelNodes(to));
+            else if (kind == u"mixConfig") attach(cl->findExtension<QXmppMixManager>()->requestChannelConfiguration(to));
+            else if (kind == u"mixInfo") attach(cl->findExtension<QXmppMixManager>()->requestChannelInformation(to));
+            else if (kind == u"mixJoin") attach(cl->findExtension<QXmppMixManager>()->joinChannel(to, u"nick"_s));
+            else if (kind == u"mixLeave") attach(cl->findExtension<QXmppMixManager>()->leaveChannel(to));
+            else if (kind == u"mixNick") attach(cl->findExtension<QXmppMixManager>()->updateNickname(to, u"nick2"_s));
+            else if (kind == u"mixParticipants") attach(cl->findExtension<QXmppMixManager>()->requestParticipants(to));
+            else if (kind == u"mixCreate") attach(cl->findExtension<QXmppMixManager>()->createChannel(to, u"chan"_s));
+            else if (kind == u"mixDelete") attach(cl->findExtension<QXmppMixManager>()->deleteChannel(to));
+            else if (kind == u"mixAllowed") attach(cl->findExtension<QXmppMixManager>()->requestAllowedJids(to));
+            else if (kind == u"mixBan") attach(cl->findExtension<QXmppMixManager>()->banJid(to, u"spam@evil.example"_s));
+            else if (kind == u"tuneRequest") attach(cl->findExtension<QXmppUserTuneManager>()->request(to));
+            else if (kind == u"locationRequest") attach(cl->findExtension<QXmppUserLocationManager>()->request(to));
+            else if (kind == u"uploadSlot") attach(cl->findExtension<QXmppUploadRequestManager>()->requestSlot(u"file.bin"_s, 1234, QMimeDatabase().mimeTypeForName(u"application/octet-stream"_s), to));
+            else known = false;
+            if (!known) J({ { "ev", "bad_step" }, { "step", idx }, { "op", op }, { "kind", kind } });
+            return known;
         }
         if (op == u"sendMessage" || op == u"sendPresence") {
             auto &c = cli(st);
